@@ -859,7 +859,7 @@ SemModel generateSemModel(Rng &rng, const SemOptions &opt)
         };
         for (int i = 0; i < opt.computedConstants; ++i) {
             int qi = newQuantity(QKind::COMPUTED_CONSTANT, (opt.compoundUnits && rng.chance(0.4)) ? 3 : static_cast<int>(rng.below(2)));
-            define(qi, usable, rng.range(1, opt.exprDepth));
+            define(qi, usable, rng.chance(0.12) ? 0 : rng.range(1, opt.exprDepth)); // depth 0: cc = (copy of) k, or a literal
             // a computed constant must read at least one quantity or literal: fine either way
             m.order.push_back(qi);
             usable.push_back(qi);
@@ -930,6 +930,9 @@ SemModel generateSemModel(Rng &rng, const SemOptions &opt)
                 ExprP inner = randomValueExpr(rng, leaves, rng.range(0, opt.exprDepth - 1), false);
                 // guarantee the dependence on a dynamic quantity through a benign operator
                 q.def = mkOp(rng.chance(0.5) ? Op::PLUS : Op::TIMES, {mkCi("", must), inner});
+                if (rng.chance(0.12)) {
+                    q.def = mkCi("", must); // a bare reference: a = (copy of) s, the right-hand side is a single variable
+                }
                 q.lhsOnRight = rng.chance(0.15);
                 m.order.push_back(qi);
                 algebraicIds.push_back(qi);
